@@ -354,7 +354,7 @@ impl Monitor {
                 if e.kind.starts_with("Syntax(Tokenization") {
                     // the offending source line of a line that cannot be tokenized is the line just typed
                     if let (Op::Line(typed), Ok(lines)) = (op, &e.caret) {
-                        if e.line.is_some() || lines.first() != Some(typed) {
+                        if lines.first() != Some(typed) {
                             return Some(Violation::new(
                                 "C01/caret-wrong-line",
                                 format!("tokenization error attributed to line {:?}", e.line),
